@@ -26,7 +26,7 @@ var layoutFields = map[string]bool{"Field.Doc": true, "MetaData.Description": tr
 
 // positionOnlyUse: every use of v stores it into a field named Line/Column, passes it as a parameter named line/column,
 // or parks it in a local map whose lookups are in turn used only that way.
-func positionOnlyUse(v ssa.Value, depth int) bool {
+func positionOnlyUse(w *World, v ssa.Value, depth int) bool {
 	if depth > 4 || v.Referrers() == nil {
 		return depth <= 4
 	}
@@ -42,12 +42,30 @@ func positionOnlyUse(v ssa.Value, depth int) bool {
 				return false
 			}
 		case *ssa.MapUpdate:
-			mm, ok := valueRoot(x.Map).(*ssa.MakeMap)
-			if !ok || x.Value != v {
+			if x.Value != v {
 				return false
 			}
-			for _, r2 := range *mm.Referrers() {
-				if lk, ok := r2.(*ssa.Lookup); ok {
+			var lookups []*ssa.Lookup
+			if mm, ok := valueRoot(x.Map).(*ssa.MakeMap); ok {
+				for _, r2 := range *mm.Referrers() {
+					if lk, ok := r2.(*ssa.Lookup); ok {
+						lookups = append(lookups, lk)
+					}
+				}
+			} else if key := structFieldKey(x.Map); key != "" {
+				// a map kept in a struct field (e.g. a per-packet scratch record): every lookup of that field, anywhere
+				for _, fn := range w.srcFuncs {
+					forEachInstr(fn, func(_ *ssa.BasicBlock, ins ssa.Instruction) {
+						if lk, ok := ins.(*ssa.Lookup); ok && structFieldKey(lk.X) == key {
+							lookups = append(lookups, lk)
+						}
+					})
+				}
+			} else {
+				return false
+			}
+			for _, lk := range lookups {
+				{
 					var val ssa.Value = lk
 					if lk.CommaOk {
 						val = nil
@@ -57,7 +75,7 @@ func positionOnlyUse(v ssa.Value, depth int) bool {
 							}
 						}
 					}
-					if val != nil && !positionOnlyUse(val, depth+1) {
+					if val != nil && !positionOnlyUse(w, val, depth+1) {
 						return false
 					}
 				}
@@ -80,6 +98,27 @@ func positionOnlyUse(v ssa.Value, depth int) bool {
 		}
 	}
 	return true
+}
+
+// structFieldKey: "pkg.Type.field" when v is a load of a struct field, else "".
+func structFieldKey(v ssa.Value) string {
+	ld, ok := stripIdentity(v).(*ssa.UnOp)
+	if !ok || ld.Op != token.MUL {
+		return ""
+	}
+	fa, ok := ld.X.(*ssa.FieldAddr)
+	if !ok {
+		return ""
+	}
+	pt, ok := fa.X.Type().Underlying().(*types.Pointer)
+	if !ok {
+		return ""
+	}
+	st, ok := pt.Elem().Underlying().(*types.Struct)
+	if !ok || fa.Field >= st.NumFields() {
+		return ""
+	}
+	return pt.Elem().String() + "." + st.Field(fa.Field).Name()
 }
 
 // generatorReach: subject functions reachable from the six Generate methods and constructors.
@@ -309,7 +348,7 @@ func runC08(w *World, r *Report) {
 				r.fail(ruleLay, fnKey(fn)+" queries the hidden channel", w.instrPos(ins), "the model visitor reads comments: they can reach generated code")
 			case name == "GetLine" || name == "GetCharPositionInLine" || name == "GetColumn":
 				// allowed only when the value ends up in a Line/Column field (directly, through a line/column parameter, or through a local position map)
-				okUse := positionOnlyUse(call, 0)
+				okUse := positionOnlyUse(w, call, 0)
 				if !okUse {
 					r.fail(ruleLay, fnKey(fn)+" uses a source position as data", w.instrPos(ins), name+"() flows somewhere other than a Line/Column field")
 				}
